@@ -234,8 +234,11 @@ Fixpoint exec (p : prog) (s : wst) (fs : list fault) : wst * list event * res :=
 (* ------------------------------------------------------------------ locHash *)
 Definition two63 : Z := 9223372036854775808.
 Definition wrap64 (x : Z) : Z := (x + two63) mod (2 * two63) - two63.
-(* hashNum = k.HashedInt(); if hashNum < 0 { hashNum = -hashNum }; hashNum %= muxSize   (Go's % truncates) *)
-Definition loc (h n : Z) : Z := Z.rem (if h <? 0 then wrap64 (- h) else h) n.
+(* hashNum = k.HashedInt() % muxSize; if hashNum < 0 { hashNum = -hashNum }   (Go's % truncates toward zero) *)
+Definition loc (h n : Z) : Z := Z.abs (Z.rem h n).
+(* before repair 21: hashNum = k.HashedInt(); if hashNum < 0 { hashNum = -hashNum }; hashNum %= muxSize - the smallest
+   int has no positive counterpart (the negation wraps to itself), its remainder stays negative and the caller panics *)
+Definition loc_prefix (h n : Z) : Z := Z.rem (if h <? 0 then wrap64 (- h) else h) n.
 
 (* ------------------------------------------------------------------ the group, sequential use *)
 Record gcfg := mkCfg {
